@@ -435,10 +435,39 @@ class World:
         (parameter name, value), ..., positionally or — every other
         value of a bit of `keep` — by keyword, as the signature allows."""
         f = getattr(self.api, meth)
-        if (keep >> 5) & 1:
+        kw = (keep >> 5) & 1
+        if kw:
             self.label('call.keyword')
-            return f(**dict(pairs))
-        return f(*[v for _, v in pairs])
+
+        def go():
+            if kw:
+                return f(**dict(pairs))
+            return f(*[v for _, v in pairs])
+        reusable = all(
+            isinstance(v, (dict, set, frozenset, list, tuple, str, int,
+                           bool, type(None))) or hasattr(v, 'node')
+            for _, v in pairs)
+        if (keep >> 7) & 1 and reusable:
+            # the caller's containers are handed in again, as they are
+            # after the first call: the second result must be the same
+            self.label('call.twice_same_arguments')
+            r1 = go()
+            if self.kind == 'bdd':
+                # keep the first result alive while the second is made
+                self.b.incref(r1)
+                try:
+                    r2 = go()
+                finally:
+                    self.b.decref(r1)
+            else:
+                r2 = go()
+            require(self.node(r1) == self.node(r2),
+                    'call.second_call_differs',
+                    dict(method=meth, first=self.node(r1),
+                         second=self.node(r2)))
+            r1 = None
+            return r2
+        return go()
 
     # constructions -----------------------------------------------------
     def op_var(self, k, keep=1):
@@ -1121,7 +1150,11 @@ class World:
                 init = list(self.order[:-1])    # a prefix of this order
             elif k % 5 == 4:
                 init = []
-            cfg = dict(kind=self.kind, nmax=self.nmax,
+            pk = self.kind
+            if k % 4 == 2 and not self.cfg.get('reordering'):
+                # a manager of the other kind (dd.bdd <-> dd.autoref)
+                pk = 'autoref' if self.kind == 'bdd' else 'bdd'
+            cfg = dict(kind=pk, nmax=self.nmax,
                        semantic=self.cfg.get('semantic', 1),
                        order=init or None, init_vars=0)
             if self.cfg.get('reordering'):
@@ -1161,6 +1194,18 @@ class World:
         snap = (dict(src.b._succ), dict(src.b._ref), dict(src.b.vars))
 
         def do():
+            if src.kind != dst.kind:
+                # between a dd.bdd manager and the manager wrapped by a
+                # dd.autoref one: the dd.bdd-level functions
+                self.label('xcopy.mixed_kinds')
+                u = src.node(e.ref)
+                if form == 1:
+                    r_ = src._bddmod.copy_bdd(u, src.b, dst.b)
+                else:
+                    r_ = src.b.copy(u, dst.b)
+                if dst.kind == 'autoref':
+                    return dst._ar.Function(r_, dst.A)
+                return r_
             if src.kind == 'autoref':
                 if form == 0:
                     return src.A.copy(e.ref, dst.A)
@@ -1230,7 +1275,7 @@ class World:
             return
 
         def do():
-            if src.kind == 'autoref':
+            if src.kind == 'autoref' and dst.kind == 'autoref':
                 src._ar.copy_vars(src.A, dst.A)
             else:
                 _copy.copy_vars(src.b, dst.b)
